@@ -185,7 +185,7 @@ class FixedMarginBusiness(Sector):
         self.LabourInputName = labour_input_name
         self.OutputName = output_name
         self.AddVariable('SUP_' + output_name, 'Supply of goods', '')
-        self.AddVariable('PROF', 'Profits', 'SUP_GOOD - DEM_' + labour_input_name)
+        self.AddVariable('PROF', 'Profits', 'SUP_' + output_name + ' - DEM_' + labour_input_name)
         # Declare the labour demand now (defined in _GenerateEquations), so that the labour market
         # finds it no matter whether it was created before or after this sector.
         self.AddVariable('DEM_' + labour_input_name, 'Demand for labour', '')
